@@ -1,7 +1,7 @@
 (** * C13 — generated traits have exactly the requested visibility *)
 From Coq Require Import List String Ascii Bool.
 From Entrait Require Import Tok Syn Opts Split Convert Codegen Expand Proj Examples.
-From Entrait.Proofs Require Import Base Shapes NonVac PC13.
+From Entrait.Proofs Require Import Base Shapes NonVac PC13 Vis.
 Import ListNotations.
 Local Open Scope list_scope.
 
@@ -23,9 +23,30 @@ Theorem c13_mod : forall v attr h name body sigs sf items,
     items = [IMod (h_attrs h) (h_vis h) name (user ++ [ITrait tr; IImpl im]);
              IUse [] (fa_vis a) ([TId name] ++ path_sep ++ [TId (fa_trait a)])] /\
     t_name tr = fa_trait a /\
-    t_vis tr = match fa_vis a with [] => [TId "pub"; TG Paren [TId "super"]] | x => x end.
+    t_vis tr = module_vis (fa_vis a).
 Proof. exact c13_mod_vis. Qed.
 Print Assumptions c13_mod.
+
+(** what that means: the trait of an entraited module is defined one module level below the invocation site, so
+    the requested tokens are not emitted as they are but as [module_vis] of them — and [module_vis v], read inside
+    the module [m], denotes exactly the scope that [v] denotes at the invocation site ([Vis.vis_scope]: the module
+    within which the item is visible; relative visibilities [pub(self)], [pub(super)], [pub(in self::..)],
+    [pub(in super::..)] and none are resolved against the module they are written in), for every site, every
+    module name and every visibility rustc accepts at the site. *)
+Theorem c13_mod_scope : forall site m v s,
+  vis_scope site v = Some s -> vis_scope (m :: site) (module_vis v) = Some s.
+Proof. exact module_vis_scope. Qed.
+Print Assumptions c13_mod_scope.
+
+(** ... whereas the requested tokens themselves, emitted inside the module (the macro before the repair of F17),
+    denote a narrower scope; the re-export beside the module is then rejected by rustc (E0365 / E0603). *)
+Theorem c13_mod_same_tokens_refuted :
+  exists site m v s, vis_scope site v = Some s /\ vis_scope (m :: site) v <> Some s.
+Proof.
+  exists ["b"; "a"]%string, "m"%string, [TId "pub"; TG Paren [TId "super"]], (Within ["a"]%string).
+  split; [vm_compute; reflexivity | vm_compute; discriminate].
+Qed.
+Print Assumptions c13_mod_same_tokens_refuted.
 
 (** trait: the re-emitted trait and the delegation-target trait take the source trait's visibility *)
 Theorem c13_trait : forall v attr h t items,
